@@ -269,9 +269,13 @@ def participations(per):
                 stack.append(p)
                 continue
             if e.kind in (102, 103):
-                if stack and not stack[-1]["closed"] and (stack[-1]["aid"] is None or stack[-1]["aid"] == e.obj):
-                    stack[-1]["aid"] = e.obj
-                    stack[-1]["events"].append(e)
+                for p in reversed(stack):
+                    if p["closed"]:
+                        continue
+                    if p["aid"] is None or p["aid"] == e.obj:
+                        p["aid"] = e.obj
+                        p["events"].append(e)
+                    break
                 continue
             if e.obj >= 2000 or e.obj < 0:
                 continue
